@@ -308,7 +308,8 @@ def gen_random(g, n_cases):
         heads = [0] * n
         done = [False] * n
         while not all(done):
-            cand = [i for i in range(n) if not done[i] and (heads[i] > 0 or seqs[i][1] is None or done[seqs[i][1]])]
+            cand = [i for i in range(n) if not done[i] and (heads[i] > 0 or all(
+                done[j] for j in range(i) if invs[j]["rid"] == invs[i]["rid"]))]
             i = r.choice(cand)
             merged.append(seqs[i][0][heads[i]])
             heads[i] += 1
